@@ -41,6 +41,10 @@ ASSUMPTIONS = [
 ]
 
 LANGS = ["c", "cpp", "py"]
+DOCUMENTED_SHORTHAND_KEYS = [
+    "variable_array_type_include", "variable_array_type_template", "variable_array_type_constructor_args",
+    "allocator_include", "allocator_type", "allocator_is_default_constructible", "ctor_convention",
+]  # fmt: skip
 SCALARS = [".h", ".hpp", "x", 0, 1, 2, True, False, "little", "any", "c++14", "c++17", "c++17-pmr", "c++20", "", "true", None, None]
 TOP_KEYS = ["extension", "options", "named_types", "custom_key", "custom_map", "limit_empty_lines", "trim_trailing_whitespace", "named_values", "defaults", "stropping_suffix", "stropping_prefix"]
 OPT_KEYS = ["target_endianness", "enable_serialization_asserts", "omit_float_serialization_support", "std", "custom_opt", "nested_opt", "cast_format", "enable_override_variable_array_capacity"]
@@ -278,6 +282,7 @@ def run_case(case: dict, ctx: dict) -> dict:
     from nunavut.lang import LanguageClassLoader, LanguageContextBuilder
 
     counters = {"ops": {}, "faults_fired": {}, "probes": {}}  # type: typing.Dict[str, typing.Dict[str, int]]
+    pre_violations = []  # type: typing.List[dict]
 
     def bump(group: str, key: str, n: int = 1) -> None:
         counters[group][key] = counters[group].get(key, 0) + n
@@ -334,11 +339,18 @@ def run_case(case: dict, ctx: dict) -> dict:
                 ops.append({"op": "cli", "lang": lang, "docs": docs, "flags": flags, "mode": ro.choice(["list", "list", "probe"])})
 
     builtin = unwrap(LanguageClassLoader().config.sections())
+    # the C++ standard shorthands "set their documented group of options as a unit" (docs/languages.rst lists the keys);
+    # the model applies whatever group the configuration under test defines, so the group itself is checked here
+    for std_name in ("c++17-pmr", "cetl++14-17"):
+        group = (builtin.get("nunavut.lang.cpp", {}).get("defaults") or {}).get(std_name)
+        missing = [k for k in DOCUMENTED_SHORTHAND_KEYS if not isinstance(group, dict) or k not in group]
+        if missing:
+            pre_violations.append({"signature": "%s:shorthand-group-incomplete:%s" % (PROP, std_name), "detail": {"std": std_name, "missing_documented_keys": missing}})
     builders = []  # type: typing.List[typing.Any]
     models = []  # type: typing.List[ModelBuilder]
     contexts = []  # type: typing.List[dict]
     handed_in = []  # type: typing.List[typing.Tuple[str, typing.Any, typing.Any]]
-    violations = []  # type: typing.List[dict]
+    violations = list(pre_violations)  # type: typing.List[dict]
     states = set()  # type: typing.Set[str]
     trace = []  # type: typing.List[str]
     evaluations = 0
